@@ -15,7 +15,7 @@ Ts == 1..NT
 Ls == 1..2          \* listeners (object ids 11, 12 in poll events)
 Es == 1..2          \* establishers (object ids 21, 22)
 InitT == [alive |-> FALSE, due |-> 0, iv |-> 0]
-InitCl == [alive |-> FALSE, susp |-> FALSE, closing |-> FALSE, pclosed |-> FALSE]
+InitCl == [alive |-> FALSE, susp |-> FALSE, closing |-> FALSE, pclosed |-> FALSE, failed |-> FALSE]
 Init0 == [tm |-> [t \in Ts |-> InitT], cl |-> [c \in Cs |-> InitCl], ls |-> [x \in Ls |-> FALSE], es |-> [x \in Es |-> FALSE], oblig |-> {}, irq |-> FALSE, wake |-> FALSE, inrun |-> FALSE]
 
 \* the operating system reports hang-up even for event kinds a socket is not registered for: a reported kind is
@@ -54,7 +54,8 @@ Step(ev, s) ==
     \* a failed write (refused by the OS with an error) must be followed by onClosed
     [] ev.op = "write" -> IF s.cl[ev.c].alive THEN { IF ev.r THEN s ELSE [s EXCEPT !.cl[ev.c].closing = TRUE] } ELSE {}
     [] ev.op = "send" -> IF ~s.cl[ev.c].alive THEN {}
-                         ELSE { Discharge(IF ev.fail /\ ev.inwrite = 0 THEN [s EXCEPT !.cl[ev.c].closing = TRUE] ELSE s, ev.c) }
+                         ELSE { Discharge(IF ev.fail /\ ev.inwrite = 0 THEN [s EXCEPT !.cl[ev.c].closing = TRUE, !.cl[ev.c].failed = TRUE]
+                                          ELSE IF ev.fail THEN [s EXCEPT !.cl[ev.c].failed = TRUE] ELSE s, ev.c) }
     \* callbacks: never for a removed client; onRead only while registered for reading (not suspended)
     [] ev.op = "onRead" ->
          IF s.cl[ev.c].alive /\ ~s.cl[ev.c].susp /\ s.inrun /\ ~MustReturn(s)
@@ -65,6 +66,10 @@ Step(ev, s) ==
     [] ev.op = "onWrite" -> IF s.cl[ev.c].alive /\ s.inrun /\ ~MustReturn(s) THEN { Discharge(s, ev.c) } ELSE {}
     [] ev.op = "onClosed" -> IF s.cl[ev.c].alive /\ s.cl[ev.c].closing /\ s.inrun /\ ~MustReturn(s)
                              THEN { Discharge([s EXCEPT !.cl[ev.c].closing = FALSE], ev.c) } ELSE {}
+    \* end-of-history probe (the client was resumed and the loop ran with everything the kernel reports): a live
+    \* client whose connection has not failed must not be left with a backlog - its write readiness was registered
+    \* and has to be dispatched
+    [] ev.op = "check" -> IF s.cl[ev.c].alive /\ ~s.cl[ev.c].closing /\ ~s.cl[ev.c].pclosed /\ ~s.cl[ev.c].failed /\ ev.sb > 0 THEN {} ELSE { s }
     [] ev.op = "interrupt" -> { [s EXCEPT !.irq = TRUE] }
     [] ev.op = "run" -> IF ~s.inrun THEN { [s EXCEPT !.inrun = TRUE] } ELSE {}
     \* the loop asks the operating system: every socket reported ready before has been dispatched, every failed
